@@ -2,7 +2,7 @@
 # verify_seed.sh <PID> <k> : confirm a seeded change in its scratch worktree /tmp/wt/<PID>
 # (patch applies, demo fails with it / passes without, baseline tests still pass), then store it under /verif/seeded/<PID>_<k>/
 set -u
-PID=$1; K=$2; WT=/tmp/wt/$PID; S=$WT/SEED/$K; OUT=/verif/seeded/${PID}_$K
+PID=$1; K=$2; WT=${WTROOT:-/tmp/wt}/$PID; S=$WT/SEED/$K; OUT=/verif/seeded/${PID}_${OUTK:-$K}
 cd $WT || exit 2
 git checkout -q -- src || exit 2
 python_() { PYTHONPATH=$WT/src timeout 600 /venv/bin/python "$@"; }
